@@ -149,6 +149,16 @@ fn p_lend_group_ref() {
     drop(parent);
     assert!(count(&keep) == 1, "C07 ctx_count_restored: after the parent and its borrowed children are gone the count is back to its starting value");
 }
+#[kani::proof]
+#[kani::unwind(3)]
+fn p_lend_group_mut() {
+    let id: u32 = kani::any();
+    let (keep, imp, ctx) = setup(id);
+    let mut parent = trait_obj!((imp, ctx) as LenderGroupMut);
+    { let k = parent.lend_group_mut(); assert!(k.leaf() == id ^ 9); assert!(as_ref!(k impl Extra).is_some(), "borrowed mutable group keeps its optional trait"); }
+    drop(parent);
+    assert!(count(&keep) == 1, "C07 ctx_count_restored: after the parent and its borrowed children are gone the count is back to its starting value");
+}
 //@ prefix=p_lendown kind=property clause=a borrowed child holds its OWN clone of the context: with a context that is not reference counted (clone = deep copy, drop = free), using the child's context (to create an owned grandchild) after the call returned touches only live memory, and the grandchild keeps working after the parent is gone
 #[kani::proof]
 #[kani::unwind(3)]
